@@ -319,9 +319,23 @@ def run(ck, w):
     cmps = [(bb, s) for bb, j, s in ra.all_assigns() if s["rv"]["rk"] == "binop" and s["rv"]["op"] in ("Gt", "Ge", "Lt", "Le")]
     okk = False
     for bb, s in cmps:
-        ed = rules.local_bool_edges(ra, {s["pl"]["l"]}, False)
-        if sl and ed and all(ra.must_pass_edges(ed, e.bb) for e in sl):
-            okk = True
+        # which edge of the comparison means "the requested end lies within the content": `end > len` false, `end <= len` true,
+        # `len >= end` true, `len < end` false ... (sides told apart by provenance: the content's len() against start + len)
+        a_, b_ = s["rv"]["ops"]
+        def is_len(op_):
+            oo_ = flow.origins_x(lib, ra, op_) if op_.get("k") != "const" else set()
+            return any(x[0] == "call" and x[1].endswith("::len") for x in oo_) and not any(x[0] == "arith" for x in oo_)
+        op_ = s["rv"]["op"]
+        if is_len(b_) and not is_len(a_):
+            pols = [False] if op_ in ("Gt", "Ge") else [True]
+        elif is_len(a_) and not is_len(b_):
+            pols = [True] if op_ in ("Gt", "Ge") else [False]
+        else:
+            pols = [False]
+        for pol_ in pols:
+            ed = rules.local_bool_edges(ra, {s["pl"]["l"]}, pol_)
+            if sl and ed and all(ra.must_pass_edges(ed, e.bb) for e in sl):
+                okk = True
     if okk:
         ck.ok(o)
     else:
@@ -370,6 +384,11 @@ def _read_hunk_returns_decoded(ck, w):
         orig = flow.origins_x(lib, rh, st["rv"]["ops"][0], through_calls=[r"Try>?::branch$", r"Result::<T, E>::map_err$"])
         if "serde_json::from_slice" not in flow.origin_calls(orig):
             bad.append((bb, st, flow.origin_summary(orig)))
+    if n == 0:
+        # no explicit `Some(entries)`: the decoded Result is wrapped by a combinator (`.map(Some)`): look at what is returned
+        orig = flow.origins_x(lib, rh, 0, through_calls=[r"Try>?::branch$", r"Result::<T, E>::(map_err|map|and_then)$"])
+        if "serde_json::from_slice" in flow.origin_calls(orig):
+            n = 1
     dec = [e for e in rh.events if e.bb in rh.live and e.name == "serde_json::from_slice"]
     src_ok = False
     for e in dec:
